@@ -20,29 +20,33 @@ Mirrors the code with the proposed fixes C17_a (`drive_out_artificials`) and C17
 namespace Solvor.Cut.Mirror
 open Solvor.Cut
 
-abbrev Tab := Array (Array Rat)
+abbrev Row := List Rat
+/-- Constraint rows followed by the objective row; the last entry of a row is the right-hand side. -/
+abbrev Tab := List Row
 
-def tget (t : Tab) (i j : Nat) : Rat := (t.getD i #[]).getD j 0
+def rget (row : Row) (j : Nat) : Rat := row.getD j 0
+def tget (t : Tab) (i j : Nat) : Rat := rget (t.getD i []) j
 def absQ (q : Rat) : Rat := if q < 0 then -q else q
 
+def rowScale (row : Row) (piv : Rat) : Row := row.map (· / piv)
+def rowSub (row : Row) (f : Rat) (rowR : Row) : Row := row.mapIdx fun j a => a - f * rget rowR j
+
 /-- The pivot of `simplex_phase` / `drive_out_artificials`: scale row `r`, eliminate column `c`
-from every other row (objective row included) whose factor exceeds `eps`. -/
-def pivot (t : Tab) (nRowsP1 r c : Nat) (eps : Rat) : Tab :=
-  let piv := tget t r c
-  let rowR := (t.getD r #[]).map (· / piv)
-  let t := t.setIfInBounds r rowR
-  (List.range nRowsP1).foldl (fun t i =>
-    if i == r then t else
-      let f := tget t i c
-      if absQ f > eps then t.setIfInBounds i (Array.zipWith (fun a b => a - f * b) (t.getD i #[]) rowR)
-      else t) t
+from every other row (objective row included) whose factor exceeds `eps`.  (The code updates the
+rows one after the other; each update reads only the row itself and the scaled pivot row.) -/
+def pivot (t : Tab) (r c : Nat) (eps : Rat) : Tab :=
+  let rowR := rowScale (t.getD r []) (tget t r c)
+  t.mapIdx fun i row =>
+    if i == r then rowR else
+      let f := rget row c
+      if absQ f > eps then rowSub row f rowR else row
 
 /-- Bland: smallest non-basic index `< nOrig` with reduced cost `< -eps`. -/
-def findEnter (t : Tab) (basis : Array Nat) (nOrig lastRow : Nat) (eps : Rat) : Option Nat :=
+def findEnter (t : Tab) (basis : List Nat) (nOrig lastRow : Nat) (eps : Rat) : Option Nat :=
   (List.range nOrig).find? fun j => !basis.contains j && decide (tget t lastRow j < -eps)
 
 /-- Minimum-ratio test with the code's tie rule (`min_ratio = inf` is `none`). -/
-def ratioTest (t : Tab) (basis : Array Nat) (nRows enter rhs : Nat) (eps : Rat) : Option Nat :=
+def ratioTest (t : Tab) (basis : List Nat) (nRows enter rhs : Nat) (eps : Rat) : Option Nat :=
   ((List.range nRows).foldl (fun (acc : Option Nat × Option Rat) i =>
     let a := tget t i enter
     if a > eps then
@@ -59,7 +63,7 @@ def ratioTest (t : Tab) (basis : Array Nat) (nRows enter rhs : Nat) (eps : Rat) 
     else acc) (none, none)).1
 
 /-- `simplex_phase`: at most `fuel` pivots. -/
-def simplexPhase (eps : Rat) (nOrig nRows rhs : Nat) : Nat → Tab × Array Nat → Tab × Array Nat
+def simplexPhase (eps : Rat) (nOrig nRows rhs : Nat) : Nat → Tab × List Nat → Tab × List Nat
   | 0, s => s
   | fuel + 1, (t, basis) =>
     match findEnter t basis nOrig nRows eps with
@@ -67,92 +71,127 @@ def simplexPhase (eps : Rat) (nOrig nRows rhs : Nat) : Nat → Tab × Array Nat 
     | some e =>
       match ratioTest t basis nRows e rhs eps with
       | none => (t, basis)
-      | some l => simplexPhase eps nOrig nRows rhs fuel (pivot t (nRows + 1) l e eps, basis.setIfInBounds l e)
+      | some l => simplexPhase eps nOrig nRows rhs fuel (pivot t l e eps, basis.set l e)
 
-/-- `drive_out_artificials` (proposed fix C17_a). -/
-def driveOut (eps : Rat) (nOrig nRows : Nat) (s : Tab × Array Nat) : Tab × Array Nat :=
-  (List.range nRows).foldl (fun (s : Tab × Array Nat) r =>
-    let (t, basis) := s
-    if basis.getD r 0 < nOrig then s else
-      match (List.range nOrig).find? fun j => decide (absQ (tget t r j) > eps) with
-      | some j => (pivot t (nRows + 1) r j eps, basis.setIfInBounds r j)
-      | none => s) s
+/-- One step of `drive_out_artificials` (fix C17_a) for row `r`. -/
+def driveStep (eps : Rat) (nOrig : Nat) (s : Tab × List Nat) (r : Nat) : Tab × List Nat :=
+  if s.2.getD r 0 < nOrig then s else
+    match (List.range nOrig).find? fun j => decide (absQ (tget s.1 r j) > eps) with
+    | some j => (pivot s.1 r j eps, s.2.set r j)
+    | none => s
+
+def driveOut (eps : Rat) (nOrig nRows : Nat) (s : Tab × List Nat) : Tab × List Nat :=
+  (List.range nRows).foldl (driveStep eps nOrig) s
 
 def simplexFuel : Nat := Solvor.Gen.Cut.simplexCap.toNat
+
+/-- Phase-2 objective row: cost 1 on the first `n` columns, minus every constraint row whose basic
+variable is one of them. -/
+def phase2Obj (t : Tab) (basis : List Nat) (n nRows width : Nat) : Row :=
+  (List.range nRows).foldl (fun o i =>
+    if basis.getD i 0 < n then rowSub o 1 (t.getD i []) else o)
+    ((List.range width).map fun j => if j < n then (1 : Rat) else 0)
+
+/-- The two-phase core shared by `_solve_master_lp` (cg.py) and `_solve_bounded_master_lp`
+(bp.py): `rows` are the constraint rows (`width` entries each, right-hand side last), `artRows`
+says which rows carry an artificial variable, `isArt` which columns are artificial, `basis0` the
+starting basis, columns `< nOrig` may enter, columns `< n` are the `x` variables.
+`none` = phase 1 ends above `eps` (infeasible); otherwise the final tableau and basis. -/
+def lpCore (eps : Rat) (rows : List Row) (artRows : List Bool) (isArt : Nat → Bool)
+    (basis0 : List Nat) (nOrig n width : Nat) : Option (Tab × List Nat) :=
+  let nRows := rows.length
+  let rhs := width - 1
+  let obj1 : Row := (List.range width).map fun j =>
+    if isArt j then (0 : Rat) else
+      (rows.zip artRows).foldl (fun a ra => if ra.2 then a - rget ra.1 j else a) 0
+  let s1 := simplexPhase eps nOrig nRows rhs simplexFuel (rows ++ [obj1], basis0)
+  if tget s1.1 nRows rhs < -eps then none else
+  let s2 := driveOut eps nOrig nRows s1
+  let t3 := s2.1.set nRows (phase2Obj s2.1 s2.2 n nRows width)
+  some (simplexPhase eps nOrig nRows rhs simplexFuel (t3, s2.2))
+
+/-- Value of `x_j` read from the final tableau (`max(0.0, rhs)` of its row if basic, else 0). -/
+def readX (t : Tab) (basis : List Nat) (nRows rhs j : Nat) : Rat :=
+  match (List.range nRows).find? fun i => basis.getD i 0 == j with
+  | some i => let v := tget t i rhs; if v < 0 then 0 else v
+  | none => 0
+
+/-- Row `i` of the master LP `Ax − s + a = d`. -/
+def masterRow (cols : List Pat) (d : List Nat) (m i : Nat) : Row :=
+  (cols.map fun c => ((c.getD i 0 : Nat) : Rat)) ++
+  ((List.range m).map fun k => if k == i then (-1 : Rat) else 0) ++
+  ((List.range m).map fun k => if k == i then (1 : Rat) else 0) ++
+  [((d.getD i 0 : Nat) : Rat)]
+
+/-- The two-phase run of `_solve_master_lp` on `min Σx, Ax − s + a = d`. -/
+def masterCore (cols : List Pat) (d : List Nat) (eps : Rat) : Option (Tab × List Nat) :=
+  let m := d.length
+  let n := cols.length
+  lpCore eps ((List.range m).map (masterRow cols d m)) (List.replicate m true)
+    (fun j => n + m ≤ j && j < n + 2 * m) ((List.range m).map fun i => n + m + i) (n + m) n (n + 2 * m + 1)
 
 /-- `_solve_master_lp`: `(x_vals, duals, objective)`, objective `none` = `inf`. -/
 def masterLP (cols : List Pat) (d : List Nat) (eps : Rat) : List Rat × List Rat × Option Rat :=
   let m := d.length
   let n := cols.length
   if n == 0 then ([], List.replicate m 0, none) else
-  let nVars := n + 2 * m
-  let rhs := nVars
-  let rows : List (Array Rat) := (List.range m).map fun i =>
-    ((cols.map fun c => ((c.getD i 0 : Nat) : Rat)) ++
-     ((List.range m).map fun k => if k == i then (-1 : Rat) else 0) ++
-     ((List.range m).map fun k => if k == i then (1 : Rat) else 0) ++
-     [((d.getD i 0 : Nat) : Rat)]).toArray
-  -- phase-1 objective: minus the sum of the rows, artificial columns reset to 0
-  let obj1 : Array Rat := ((List.range (nVars + 1)).map fun j =>
-    if n + m ≤ j && j < nVars then (0 : Rat) else
-      rows.foldl (fun a r => a - r.getD j 0) 0).toArray
-  let t0 : Tab := (rows ++ [obj1]).toArray
-  let basis0 : Array Nat := ((List.range m).map fun i => n + m + i).toArray
-  let (t1, b1) := simplexPhase eps (n + m) m rhs simplexFuel (t0, basis0)
-  if tget t1 m rhs < -eps then (List.replicate n 0, List.replicate m 0, none) else
-  let (t2, b2) := driveOut eps (n + m) m (t1, b1)
-  -- phase-2 objective: cost 1 on the x columns, reduced by the rows of basic x variables
-  let cost : Array Rat := ((List.range (nVars + 1)).map fun j => if j < n then (1 : Rat) else 0).toArray
-  let obj2 : Array Rat := (List.range m).foldl (fun o i =>
-    if b2.getD i 0 < n then Array.zipWith (fun a b => a - b) o (t2.getD i #[]) else o) cost
-  let t3 := t2.setIfInBounds m obj2
-  let (t4, b4) := simplexPhase eps (n + m) m rhs simplexFuel (t3, b2)
-  let xs : List Rat := (List.range n).map fun j =>
-    match (List.range m).find? fun i => b4.getD i 0 == j with
-    | some i => let v := tget t4 i rhs; if v < 0 then 0 else v
-    | none => 0
-  let duals := (List.range m).map fun i => tget t4 m (n + i)
-  (xs, duals, some (-(tget t4 m rhs)))
+  match masterCore cols d eps with
+  | none => (List.replicate n 0, List.replicate m 0, none)
+  | some (t, b) =>
+    ((List.range n).map (readX t b m (n + 2 * m)),
+     (List.range m).map fun i => tget t m (n + i),
+     some (-(tget t m (n + 2 * m))))
+
+abbrev Dp := Array (Option (Rat × List Nat))
+
+/-- `new_val > dp_val[w] + eps`, with `dp_val[w] = -inf` for an unreached weight. -/
+def knapBetter (eps nv : Rat) (cur : Option (Rat × List Nat)) : Bool :=
+  match cur with
+  | none => true
+  | some (cv, _) => decide (nv > cv + eps)
+
+/-- One cell of a knapsack pass: `prev` is the entry one item below; take it (plus one copy of
+item `i`) when its value beats the current entry by more than `eps` (or the entry is `-inf`). -/
+def knapCell (eps : Rat) (i : Nat) (v : Rat) (cur prev : Option (Rat × List Nat)) : Option (Rat × List Nat) :=
+  match prev with
+  | none => cur
+  | some (pv, pp) =>
+    if knapBetter eps (pv + v) cur then some (pv + v, pp.set i (pp.getD i 0 + 1)) else cur
 
 /-- One bounded-knapsack pass for item `i` (one more copy allowed): the in-place descending loop
 reads only entries below `w`, i.e. values of the previous pass. -/
-def knapPass (eps : Rat) (i sizeI : Nat) (v : Rat) (dp : Array (Option (Rat × List Nat))) :
-    Array (Option (Rat × List Nat)) :=
+def knapPass (eps : Rat) (i sizeI : Nat) (v : Rat) (dp : Dp) : Dp :=
   (List.range dp.size).toArray.map fun w =>
-    let cur := dp.getD w none
-    if w < sizeI then cur else
-      match dp.getD (w - sizeI) none with
-      | none => cur
-      | some (pv, pp) =>
-        let nv := pv + v
-        let better := match cur with
-          | none => true
-          | some (cv, _) => decide (nv > cv + eps)
-        if better then some (nv, pp.set i (pp.getD i 0 + 1)) else cur
+    if w < sizeI then dp.getD w none else knapCell eps i v (dp.getD w none) (dp.getD (w - sizeI) none)
 
-/-- `knapsack_pricing` for integer sizes and capacity (the greedy fall-back is unreachable
-then: scaling by `pricingScale` is exact). -/
-def knapsackPricing (sizes : List Nat) (W : Nat) (values : List Rat) (eps : Rat) : List Nat × Rat :=
-  let n := sizes.length
-  if n == 0 then ([], 0) else
-  let scale := Solvor.Gen.Cut.pricingScale.toNat
-  let capInt := W * scale
-  let zero : List Nat := List.replicate n 0
-  let dp0 : Array (Option (Rat × List Nat)) :=
-    ((List.range (capInt + 1)).map fun w => if w == 0 then some ((0 : Rat), zero) else none).toArray
-  let dp := (List.range n).foldl (fun dp i =>
-    let v := values.getD i 0
-    if v ≤ eps then dp else
-      let s := sizes.getD i 1
-      let sizeI := max 1 (s * scale)
-      (List.range (W / s)).foldl (fun dp _ => knapPass eps i sizeI v dp) dp) dp0
-  let (bestW, bestVal) := (List.range (capInt + 1)).foldl (fun (acc : Nat × Rat) w =>
+def dpInit (n capInt : Nat) : Dp :=
+  (List.range (capInt + 1)).toArray.map fun w =>
+    if w == 0 then some ((0 : Rat), List.replicate n 0) else none
+
+/-- All passes: items in order, `W / s` passes each, items with value `≤ eps` skipped. -/
+def dpFill (sizes : List Nat) (W scale : Nat) (values : List Rat) (eps : Rat) (dp0 : Dp) : Dp :=
+  (List.range sizes.length).foldl (fun dp i =>
+    if values.getD i 0 ≤ eps then dp else
+      (List.range (W / sizes.getD i 1)).foldl
+        (fun dp _ => knapPass eps i (max 1 (sizes.getD i 1 * scale)) (values.getD i 0) dp) dp) dp0
+
+/-- `best_w`, `best_val`: first weight whose value beats the best so far by more than `eps`. -/
+def dpBest (dp : Dp) (capInt : Nat) (eps : Rat) : Nat × Rat :=
+  (List.range (capInt + 1)).foldl (fun (acc : Nat × Rat) w =>
     match dp.getD w none with
     | some (v, _) => if v > acc.2 + eps then (w, v) else acc
     | none => acc) (0, (0 : Rat))
-  let bestPat := if bestVal > eps then
-      (match dp.getD bestW none with | some (_, p) => p | none => zero) else zero
-  (bestPat, bestVal)
+
+/-- `knapsack_pricing` for integer sizes and capacity (the greedy fall-back is unreachable
+then, `knapsackPricing_fits`: scaling by `pricingScale` is exact). -/
+def knapsackPricing (sizes : List Nat) (W : Nat) (values : List Rat) (eps : Rat) : List Nat × Rat :=
+  if sizes.length == 0 then ([], 0) else
+  let scale := Solvor.Gen.Cut.pricingScale.toNat
+  let dp := dpFill sizes W scale values eps (dpInit sizes.length (W * scale))
+  let best := dpBest dp (W * scale) eps
+  (if best.2 > eps then
+      (match dp.getD best.1 none with | some (_, p) => p | none => List.replicate sizes.length 0)
+    else List.replicate sizes.length 0, best.2)
 
 structure CgOut where
   status : String
@@ -163,39 +202,51 @@ structure CgOut where
   lpObj : Option Rat
   deriving Inhabited
 
+/-- Round the LP values up: `count = ceil(x - eps)` for `x > eps`, kept when positive. -/
+def roundUp (cols : List Pat) (xs : List Rat) (eps : Rat) : Plan :=
+  (cols.zip xs).filterMap fun px =>
+    if px.2 > eps then
+      let c := (px.2 - eps).ceil
+      if c > 0 then some (px.1, c.toNat) else none
+    else none
+
+def unmetB (plan : Plan) (d : List Nat) : Bool :=
+  (List.range d.length).any fun i => decide (produced plan i < d.getD i 0)
+
+/-- The status rule at the end of `_solve_cutting_stock` / `_solve_custom` (`verify`: cutting stock
+re-checks the demands; `obj = none`: `ceil(inf)` raises; `converged`: fix C17_d). -/
+def finishStatus (plan : Plan) (d : List Nat) (obj : Option Rat) (eps : Rat) (converged verify : Bool) : String :=
+  if verify && unmetB plan d then "INFEASIBLE" else
+  match obj with
+  | none => "OverflowError"
+  | some o => if converged && decide ((rolls plan : Int) ≤ (o - eps).ceil) then "OPTIMAL" else "FEASIBLE"
+
 /-- Tail shared by `_solve_cutting_stock` and `_solve_custom`: final LP, round up, status. -/
 def finish (cols : List Pat) (d : List Nat) (eps : Rat) (iters : Nat) (converged verify : Bool) : CgOut :=
-  let (xs, duals, obj) := masterLP cols d eps
-  let plan : Plan := (cols.zip xs).filterMap fun (p, x) =>
-    if x > eps then
-      let c := (x - eps).ceil
-      if c > 0 then some (p, c.toNat) else none
-    else none
-  let total := rolls plan
-  let unmet := verify && (List.range d.length).any fun i => decide (produced plan i < d.getD i 0)
-  if unmet then ⟨"INFEASIBLE", plan, total, iters, duals, obj⟩ else
-  match obj with
-  | none => ⟨"OverflowError", plan, total, iters, duals, obj⟩  -- `ceil(inf)` raises
-  | some o =>
-    let lb := (o - eps).ceil
-    ⟨if converged && decide ((total : Int) ≤ lb) then "OPTIMAL" else "FEASIBLE", plan, total, iters, duals, obj⟩
+  let lp := masterLP cols d eps
+  let plan := roundUp cols lp.1 eps
+  ⟨finishStatus plan d lp.2.2 eps converged verify, plan, rolls plan, iters, lp.2.1, lp.2.2⟩
 
-/-- `_solve_cutting_stock` (no progress callback). -/
-def cgCuttingStock (W : Nat) (sizes d : List Nat) (maxIter : Nat) (eps : Rat) : CgOut :=
+/-- Initial patterns: as many copies of one piece type as fit, for every demanded type. -/
+def initPats (W : Nat) (sizes d : List Nat) : List Pat :=
   let n := sizes.length
-  let init : List Pat := (List.range n).filterMap fun j =>
+  (List.range n).filterMap fun j =>
     if d.getD j 0 > 0 then
       some ((List.range n).map fun i => if i == j then W / sizes.getD j 1 else 0)
     else none
-  let rec loop : Nat → Nat → List Pat → List Pat × Nat × Bool
-    | 0, it, pats => (pats, it, false)
-    | fuel + 1, it, pats =>
-      let (_, duals, _) := masterLP pats d eps
-      let (np, pv) := knapsackPricing sizes W duals eps
-      if pv ≤ 1 + eps then (pats, it, true)
-      else loop fuel (it + 1) (if pats.contains np then pats else pats ++ [np])
-  let (pats, it, conv) := loop maxIter 0 init
-  finish pats d eps it conv true
+
+/-- The pricing loop of `_solve_cutting_stock`: `(patterns, iterations, converged)`. -/
+def csLoop (W : Nat) (sizes d : List Nat) (eps : Rat) : Nat → Nat → List Pat → List Pat × Nat × Bool
+  | 0, it, pats => (pats, it, false)
+  | fuel + 1, it, pats =>
+    let np := knapsackPricing sizes W (masterLP pats d eps).2.1 eps
+    if np.2 ≤ 1 + eps then (pats, it, true)
+    else csLoop W sizes d eps fuel (it + 1) (if pats.contains np.1 then pats else pats ++ [np.1])
+
+/-- `_solve_cutting_stock` (no progress callback). -/
+def cgCuttingStock (W : Nat) (sizes d : List Nat) (maxIter : Nat) (eps : Rat) : CgOut :=
+  let r := csLoop W sizes d eps maxIter 0 (initPats W sizes d)
+  finish r.1 d eps r.2.1 r.2.2 true
 
 /-- The harness's exact pricing function over an explicit column list (props/C17.py `pricing`):
 first column whose reduced cost beats the best so far by more than `1e-12`. -/
@@ -204,18 +255,19 @@ def pricingCols (cols : List Pat) (duals : List Rat) : Option Pat × Rat :=
     let rc := 1 - dotQ duals c
     if rc < acc.2 - (1 : Rat) / 1000000000000 then (some c, rc) else acc) (none, 0)
 
-/-- `_solve_custom` with that pricing function. -/
+/-- The pricing loop of `_solve_custom` with that pricing function. -/
+def customLoop (cols : List Pat) (d : List Nat) (eps : Rat) : Nat → Nat → List Pat → List Pat × Nat × Bool
+  | 0, it, cur => (cur, it, false)
+  | fuel + 1, it, cur =>
+    match pricingCols cols (masterLP cur d eps).2.1 with
+    | (none, _) => (cur, it, true)
+    | (some c, rc) =>
+      if rc ≥ -eps then (cur, it, true)
+      else customLoop cols d eps fuel (it + 1) (if cur.contains c then cur else cur ++ [c])
+
+/-- `_solve_custom`. -/
 def cgCustom (cols init : List Pat) (d : List Nat) (maxIter : Nat) (eps : Rat) : CgOut :=
-  let rec loop : Nat → Nat → List Pat → List Pat × Nat × Bool
-    | 0, it, cur => (cur, it, false)
-    | fuel + 1, it, cur =>
-      let (_, duals, _) := masterLP cur d eps
-      match pricingCols cols duals with
-      | (none, _) => (cur, it, true)
-      | (some c, rc) =>
-        if rc ≥ -eps then (cur, it, true)
-        else loop fuel (it + 1) (if cur.contains c then cur else cur ++ [c])
-  let (cur, it, conv) := loop maxIter 0 init
-  finish cur d eps it conv false
+  let r := customLoop cols d eps maxIter 0 init
+  finish r.1 d eps r.2.1 r.2.2 false
 
 end Solvor.Cut.Mirror
